@@ -13,6 +13,9 @@ package sql
 //@   props C09
 //@   requires ty != nil && (forall i int :: 0 <= i && i < len(ty.Fields) ==> ty.Fields[i].Field != nil)
 //@   modifies *
+//@   -- the accepted keys and the checked paths are the keys encoding/json uses, unchanged
+//@   callverb fmt.Sprintf "'%*'" f.JSONName()
+//@   callverb fmt.Sprintf "(data->'%*')" f.JSONName()
 //@   loop ty.Fields.1 endassert !f.Exported() ==> keys == athead(keys) && checks == athead(checks) && out == athead(out)
 
 // ---------------------------------------------------------------- C16 (kernel)
@@ -128,7 +131,7 @@ package sql
 // exactly one FOREIGN KEY statement attached to THAT table, every guard column its two statements (and a
 // column that is not a guard none)
 //@ func Generate
-//@   props C08
+//@   props C08 C16
 //@   nosafety
 //@   requires ana != nil && (forall s *an.Struct :: is(s, *an.Struct) ==> structWF(s))
 //@   loop tables.1 index t
